@@ -769,7 +769,7 @@ NEUTRAL = [
 # behaviour-preserving refactorings written by sub-agents (probe digests
 # byte-identical before/after): /verif/neutral/<region>-<k>/patch.diff.
 # Every property's check must stay silent on each of them.
-NEUTRAL_PATCHES = [f"N{i}-{k}" for i in range(1, 31) for k in range(1, 6)]
+NEUTRAL_PATCHES = [f"N{i}-{k}" for i in range(1, 35) for k in range(1, 6)]
 
 
 def _apply(root, rel, old, new):
@@ -814,6 +814,44 @@ def _run_variant(job):
             kind = "mutant"
         elif kind == "neutralpatch":
             err = _apply_patch(tmp, rel)
+            kind = "neutral"
+        elif kind == "rename":
+            # generated refactoring: every local of every function renamed
+            import importlib.util
+            spec = importlib.util.spec_from_file_location(
+                "rename_locals", os.path.join(os.path.dirname(os.path.dirname(
+                    os.path.abspath(__file__))), "tools", "rename_locals.py"))
+            mod = importlib.util.module_from_spec(spec)
+            spec.loader.exec_module(mod)
+            out = tempfile.mkdtemp(prefix="sa_selftest_ren_")
+            try:
+                n = mod.main(os.path.join(tmp, "geometry_tools"),
+                             os.path.join(out, "geometry_tools"), rel)
+                shutil.rmtree(os.path.join(tmp, "geometry_tools"))
+                shutil.move(os.path.join(out, "geometry_tools"),
+                            os.path.join(tmp, "geometry_tools"))
+            finally:
+                shutil.rmtree(out, ignore_errors=True)
+            err = None if n > 500 else f"only {n} locals renamed"
+            kind = "neutral"
+        elif kind == "gen":
+            # generated refactoring (tools/gen_refactor.py), mode in `rel`
+            import importlib.util
+            spec = importlib.util.spec_from_file_location(
+                "gen_refactor", os.path.join(os.path.dirname(os.path.dirname(
+                    os.path.abspath(__file__))), "tools", "gen_refactor.py"))
+            mod = importlib.util.module_from_spec(spec)
+            spec.loader.exec_module(mod)
+            out = tempfile.mkdtemp(prefix="sa_selftest_gen_")
+            try:
+                n = mod.main(rel, os.path.join(tmp, "geometry_tools"),
+                             os.path.join(out, "geometry_tools"))
+                shutil.rmtree(os.path.join(tmp, "geometry_tools"))
+                shutil.move(os.path.join(out, "geometry_tools"),
+                            os.path.join(tmp, "geometry_tools"))
+            finally:
+                shutil.rmtree(out, ignore_errors=True)
+            err = None if n > 20 else f"only {n} sites rewritten"
             kind = "neutral"
         else:
             err = _apply(tmp, rel, old, new)
@@ -861,6 +899,20 @@ def run(pids=None, jobs=16, root=None, quiet=False):
         sel = [p for p in ps if want is None or p in want]
         if sel:
             todo.append(("neutral", vid, sel, None, rel, old, new, src))
+    # generated refactoring: all locals of all functions renamed (two
+    # suffixes), one job per property
+    for suffix in ("_q", "Renamed"):
+        for p in allp:
+            if want is None or p in want:
+                todo.append(("rename", f"rename-locals{suffix}-{p}", [p],
+                             None, suffix, None, None, src))
+    # generated refactorings of the whole package (tools/gen_refactor.py)
+    for mode in ("rettemp", "ifinvert", "eqswap", "cmpswap", "kwreverse",
+                 "npfunc"):
+        for p in allp:
+            if want is None or p in want:
+                todo.append(("gen", f"gen-{mode}-{p}", [p], None, mode,
+                             None, None, src))
     results = []
     with ProcessPoolExecutor(max_workers=max(1, jobs)) as ex:
         for res in ex.map(_run_variant, todo):
